@@ -241,6 +241,11 @@ func (e *Eng) modsetFunc(fn *ssa.Function, visiting map[*ssa.Function]bool) map[
 		_ = an
 	}
 	delete(visiting, fn)
+	if sp := e.specs.Funcs[name]; sp != nil && len(sp.AlsoMods) > 0 {
+		for k := range e.declaredMods(&FuncSpec{Name: sp.Name, Pkg: sp.Pkg, Modifies: sp.AlsoMods, HasMod: true}, nil) {
+			out[k] = true
+		}
+	}
 	if len(visiting) == 0 {
 		e.modCache[fn] = out
 	}
